@@ -179,14 +179,18 @@ class VttContext:
       extent: ExtentType = region.get_style(StyleProperties.Extent)
       
       if display_align == DisplayAlignType.after:
-        cue.set_line(round(position.v_offset.value + extent.height.value))
+        line = round(position.v_offset.value + extent.height.value)
         cue.set_align(VttCue.LineAlignment.end)
       elif display_align == DisplayAlignType.before:
-        cue.set_line(round(position.v_offset.value))
+        line = round(position.v_offset.value)
         cue.set_align(VttCue.LineAlignment.start)
       else:
-        cue.set_line(round(position.v_offset.value + extent.height.value / 2))
+        line = round(position.v_offset.value + extent.height.value / 2)
         cue.set_align(VttCue.LineAlignment.center)
+
+      # WebVTT line percentages are limited to the range [0, 100]
+
+      cue.set_line(min(max(line, 0), 100))
 
     if self._config.text_align:
       direction = element.get_style(StyleProperties.Direction)
